@@ -21,7 +21,7 @@ Lemma inst_item_mid cur m i params attrs l s s' : Inv s -> VInv s -> (cur < leng
     Inv s3 /\ VInv s3 /\ cur <> rk /\ (cur < length (st_defs s3))%nat /\ (rk < length (st_defs s3))%nat /\
     nth_error (ed_insts (get_def cur s3)) ii = Some inst /\ ei_name inst = i /\ ei_ref inst = RName (ed_name (get_def rk s3)) /\
     crange (get_def cur s3) = crange (get_def cur s) /\ all_lo0 (get_def rk s3) /\
-    fold_res (named_conn cur ii rk) l s3 = Ok s4 /\ LS s4 s'.
+    fold_res (named_conn cur ii rk) l s3 = Ok s4 /\ LS s4 s' /\ ed_name (get_def rk s3) = m.
 Proof.
   unfold inst_item. intros I VI Hc Hne A0 H.
   destruct (get_blackbox m s) as [s1 rk] eqn:G.
@@ -81,7 +81,7 @@ Proof.
   - rewrite Gr3. destruct (find_def m s) as [k|] eqn:F.
     + destruct (Gk k eq_refl) as [-> E]. rewrite E. apply A0. reflexivity.
     + intros p Hp. rewrite (Gn eq_refl) in Hp. destruct Hp.
-  - split; [exact H4|]. apply upd_def_LS. apply lstepd_of_dstep; [apply upd_inst_dstep; reflexivity|intros _; apply upd_inst_lmono; reflexivity].
+  - split; [exact H4|]. split; [|rewrite Gr3; exact Nrk]. apply upd_def_LS. apply lstepd_of_dstep; [apply upd_inst_dstep; reflexivity|intros _; apply upd_inst_lmono; reflexivity].
 Qed.
 
 (* the connection clause on the final value: for an instance with a named port map read in a reachable state, bit k of
@@ -97,7 +97,7 @@ Theorem inst_named_persists cur m i params attrs l s s1 s2 : Inv s -> VInv s -> 
   In e (net_of r (abs_def s2 (get_def cur s2))).
 Proof.
   intros I VI Hc Hne T G A0 H L pc e r Hpc Hin.
-  destruct (inst_item_mid _ _ _ _ _ _ _ _ I VI Hc Hne A0 H) as (s3 & s4 & rk & ii & inst & I3 & VI3 & Hcr & Hc3 & Hr3 & Hi & Hn & Href & Cr & A3 & H4 & L4).
+  destruct (inst_item_mid _ _ _ _ _ _ _ _ I VI Hc Hne A0 H) as (s3 & s4 & rk & ii & inst & I3 & VI3 & Hcr & Hc3 & Hr3 & Hi & Hn & Href & Cr & A3 & H4 & L4 & _).
   rewrite <- Cr in T, Hin.
   assert (V3 : visible s3 (get_def cur s3)) by (apply conn_ok_visible; apply (proj1 VI3)).
   destruct (instance_nets_visible cur ii rk inst l s3 s4 I3 Hcr Hc3 Hr3 Hi Href T G A3 V3 H4) as [_ M].
